@@ -244,6 +244,7 @@ def run(repo: Repo, rep: Report, tier: str) -> None:
     from .c27 import check_stop_only_idle
     rep.rule("stop-only-idle", "the provider loop is told to stop only in Sta1 (after the closing actions ran), through kill_dul(), or in the catch-all's hard shutdown")
     check_stop_only_idle(repo, rep, "stop-only-idle")
+    check_user_requests(repo, rep)
 
 def check_survival(repo, rep, rm, rule):
     dul = rm.dul
@@ -296,3 +297,47 @@ def check_survival(repo, rep, rm, rule):
     for s in need_:
         if s not in srcd:
             rep.defer(f"decode_msg no longer contains the peer-indexed lookup {s!r}: re-read the DIMSE receive path")
+
+
+def check_user_requests(repo: Repo, rep: Report) -> None:
+    """Two requests the association code issues on the user's behalf are only defined in some states, and
+    the code keeps them there with a guard of its own:
+    * A-ABORT request (Evt15) - a second one meets Sta13, where Evt15 is undefined: the single-abort flag must
+      be raised *before* the request is handed to the provider (and tested before that), so that an
+      overlapping abort() from another thread (a DIMSE timeout in the user thread, a network timeout in the
+      reactor) finds it set;
+    * A-RELEASE response (Evt14) - defined in Sta8 / Sta12 only: the reactor may answer a pending release
+      request only while the association is still established (after an abort the provider is in Sta13)."""
+    rep.rule("abort-once", "the single-abort flag is tested and raised before the A-ABORT request is issued")
+    rep.rule("release-only-established", "the reactor answers a peer's release request only under `self.is_established`")
+    am = repo.mod("association")
+    ci = am.classes.get("Association")
+    n = 0
+    for name, fn in ci.methods.items():
+        sends = [c for c in walk_no_nested(fn) if isinstance(c, ast.Call) and norm(c.func) == "self.acse.send_abort"]
+        if not sends:
+            continue
+        fq = f"association.Association.{name}"
+        cfg = CFG(fn, body=body_nodoc(fn), local_exc_only=True)
+        sets = [nd for nd in cfg.nodes if nd.kind == "stmt" and isinstance(nd.ast, ast.Assign) and norm(nd.ast.targets[0]) == "self._sent_abort" and norm(nd.ast.value) == "True"]
+        tests = [nd for nd in cfg.nodes if nd.kind == "test" and "self._sent_abort" in norm(nd.ast.test)]
+        for c in sends:
+            n += 1
+            sn = cfg.nodes_containing(c)[0]
+            ok_set = any(cfg.dominates(s_, sn) for s_ in sets)
+            ok_test = any(cfg.dominates(t_, sn) for t_ in tests)
+            rep.check(ok_set and ok_test, "abort-once", fq, enclosing(c, (ast.stmt,)), "the A-ABORT request is issued before the single-abort flag is raised (or without testing it): while the first request is on its way - EVT_ACSE_SENT handlers included - a second abort() passes the guard, the provider gets Evt15 twice, the second one in Sta13 where it is undefined, and the provider thread dies with the connection open", mod=am, node=c)
+    rep.floor("A-ABORT request sites in Association", n, 1)
+    rr = ci.methods.get("_run_reactor")
+    m = 0
+    for c in [c for c in walk_no_nested(rr) if isinstance(c, ast.Call) and norm(c.func) == "self.acse.send_release"]:
+        m += 1
+        g = enclosing(c, (ast.If,))
+        ok = False
+        while g is not None and not ok:
+            atoms = [norm(v) for v in g.test.values] if isinstance(g.test, ast.BoolOp) and isinstance(g.test.op, ast.And) else [norm(g.test)]
+            if "self.is_established" in atoms and any(x is c for s_ in g.body for x in ast.walk(s_)):
+                ok = True
+            g = enclosing(g, (ast.If,))
+        rep.check(ok, "release-only-established", "association.Association._run_reactor", enclosing(c, (ast.stmt,)), "the reactor sends an A-RELEASE response without having tested that the association is still established: after a local abort (provider in Sta13) a release request that was already pending is answered, Evt14 is undefined in Sta13 and the provider thread dies", mod=am, node=c)
+    rep.floor("release responses sent by the reactor", m, 1)
